@@ -462,3 +462,49 @@ def c09_inverse_small_angles(ctx, dim, scale):
         Y = T.call_array(X)
         lin = s * (X + th[0] * np.stack([-X[:, 1], X[:, 0]], axis=1)) + np.array(t)[None, :]
         ctx.ensure("small rotation acts to first order as x + theta * (-y, x)", bool(np.allclose(Y, lin, rtol=0, atol=2 * s * (th[0] ** 2) * 600 + 1e-9)))
+
+
+@ob("C09.warp_order", kind="B", cases=product_cases(dim=(2, 3), units=("coordinate", "voxel", "voxelcenter"), kind=("shift", "turn")), funcs=FUNCS, samples=(1, 2),
+    cite="A transformation-based correction whose map is the identity, a whole-voxel translation or a quarter turn returns exactly the input array, its zero-filled shift, or its rotation",
+    note="bounded: 'wrap the transformation in a correction' and 'set its parameters' commute as long as both happen before the first use - the correction applies the map as it IS "
+         "when the array is corrected (after seed C09_h: warp table frozen at construction)")
+def c09_warp_order(ctx, dim, units, kind):
+    rng = np.random.default_rng(ctx.rng.randrange(1 << 30))
+    if kind == "turn" and dim == 3:
+        ctx.ensure("(quarter turns are stated in 2-D)", True)
+        return
+    shape = (5, 5) if kind == "turn" else ((4, 6) if dim == 2 else (3, 4, 2))
+    arr = rng.random(shape)
+    img = darsia.Image(arr.copy(), space_dim=dim, scalar=True, dimensions=[float(n) for n in shape])      # unit voxels
+    cs = img.coordinatesystem
+    mk = {"coordinate": darsia.make_coordinate, "voxel": darsia.make_voxel, "voxelcenter": darsia.make_voxel_center}[units]
+
+    def build(first):
+        T = darsia.AffineTransformation(dim)
+        proto = np.zeros((2, dim))
+        T.set_dtype(mk(proto), mk(proto))
+        shift_vox = np.array([1, -2, 1][:dim])
+
+        def parametrise():
+            if kind == "shift":
+                if units == "coordinate":
+                    t = np.asarray(cs.coordinate_vector(shift_vox.astype(float)), dtype=float)
+                else:
+                    t = shift_vox.astype(float)
+                T.set_parameters(np.array(t, dtype=float), 1.0, np.zeros(1 if dim == 2 else 3))
+            else:
+                # quarter turn about the image centre
+                c = np.asarray(cs.coordinate(np.array([2.5, 2.5])), dtype=float) if units == "coordinate" else (np.array([2.5, 2.5]) if units == "voxel" else np.array([2.0, 2.0]))
+                ang = np.pi / 2
+                R = np.array([[np.cos(ang), -np.sin(ang)], [np.sin(ang), np.cos(ang)]])
+                T.set_parameters(c - R @ c, 1.0, np.array([ang]))
+        if first == "parametrise":
+            parametrise()
+            C = darsia.TransformationCorrection(cs, cs, T)
+        else:
+            C = darsia.TransformationCorrection(cs, cs, T)
+            parametrise()
+        return C.correct_array(arr.copy())
+    a, b = build("parametrise"), build("wrap")
+    ctx.ensure("parametrise-then-wrap == wrap-then-parametrise", a.shape == b.shape and bool(np.allclose(a, b, atol=1e-12)))
+    ctx.ensure("the map is not the identity here (the correction does move the data)", not np.allclose(a, arr))
